@@ -225,6 +225,25 @@ func c10CheckTree(c *runner.Ctx, root ast.Node, desc string) {
 		c.Violate("walk-panic:"+sigWords(fmt.Sprint(pan)), fmt.Sprintf("ast.Walk panicked: %v", pan), map[string]interface{}{"tree": desc})
 		return
 	}
+	// every node is entered exactly once (a node reachable through two slots
+	// would be visited, patched and compiled twice)
+	entered := map[ast.Node]int{}
+	for _, e := range rv.events {
+		if e.enter {
+			entered[e.node]++
+		}
+	}
+	for n, k := range entered {
+		if k > 1 {
+			if sharedByElvis(root, n) {
+				c.Violate("node-entered-twice:condition-of-elvis-shared-with-first-arm", fmt.Sprintf("the parser builds `a ?: b` with one %s node in both the Cond and the Exp1 slot: it is entered %d times", nodeKindName(n), k),
+					map[string]interface{}{"tree": desc})
+				return
+			}
+			c.Violate("node-entered-twice:"+nodeKindName(n), fmt.Sprintf("a %s node is entered %d times: it is shared by two slots of the tree", nodeKindName(n), k), map[string]interface{}{"tree": desc, "dump": clip(ast.Dump(root), 1500)})
+			return
+		}
+	}
 	if d := compareStreams(want, rv.events); d != "" {
 		c.Violate("stream:"+sigWords(d), "Enter/Exit stream differs from the node enumeration: "+d, map[string]interface{}{"tree": desc, "dump": clip(ast.Dump(root), 1500)})
 		return
@@ -266,6 +285,12 @@ func init() {
 				}
 				return 40000
 			}, Run: c10RandomTree},
+			{Name: "parsed-trees", N: func(tier string) uint64 {
+				if tier == "thorough" {
+					return 600000
+				}
+				return 15000
+			}, Run: c10ParsedTree},
 			{Name: "patch-compile", N: func(tier string) uint64 {
 				if tier == "thorough" {
 					return 400000
@@ -428,6 +453,44 @@ func c10PatchCompile(c *runner.Ctx, idx uint64) {
 		}
 	}
 
+	// (1b) user Patch replacing a string literal (also as a literal pattern of
+	// matches) == textual substitution
+	var lits []string
+	t.Walk(func(x *term.Term) {
+		if x != nil && x.K == term.KStr {
+			lits = append(lits, x.Str)
+		}
+	})
+	if len(lits) > 0 {
+		from := lits[r.Intn(len(lits))]
+		to := r.Pick([]string{"zz$", "b", "^.o", ""})
+		if subS, occS := substituteStr(t, from, to); occS > 0 && from != to {
+			subSrc := term.Print(subS, term.PrintOpts{})
+			sp := &stringPatcher{from: from, to: to}
+			p1, co1 := SafeCompile(src, expr.Env(envs.Env{}), expr.Patch(sp))
+			p2, co2 := SafeCompile(subSrc, expr.Env(envs.Env{}))
+			c.Eval(2)
+			if co1.Panic != nil || co2.Panic != nil {
+				c.Violate("patch-compile-panic", fmt.Sprint(co1.Panic, co2.Panic), map[string]interface{}{"source": src})
+			} else if (co1.Err != nil) != (co2.Err != nil) {
+				c.Violate("patch-compile-verdict", fmt.Sprintf("patched: %s, substituted: %s", co1, co2), map[string]interface{}{"source": src, "substituted": subSrc})
+			} else if co1.Err == nil {
+				for i := range styles {
+					e := envs.New(&envs.Log{})
+					envs.Fill(e, styles[i], runner.NewRng(seeds[i]))
+					o1, o2 := SafeRun(p1, *e), SafeRun(p2, *e)
+					c.Eval(2)
+					c.Count("patched_programs_compared", 1)
+					if o1.Failed() != o2.Failed() || (!o1.Failed() && mon.Canon(o1.Val) != mon.Canon(o2.Val)) {
+						c.Violate("patch-effect:string-literal", fmt.Sprintf("program whose string literal %q was patched to %q returns %s, the textually substituted program %s", from, to, o1, o2),
+							map[string]interface{}{"source": src, "substituted": subSrc, "from": from, "to": to, "env": envBrief(e)})
+						break
+					}
+				}
+			}
+		}
+	}
+
 	// (2) a constant sum planted in an int-typed slot must come out folded
 	var cands []*term.Term
 	var collect func(x *term.Term, blocked bool)
@@ -518,4 +581,96 @@ func opOfKind(x *term.Term) string {
 		return x.K.String()
 	}
 	return x.K.String()
+}
+
+// c10ParsedTree walks trees produced by the parser itself (every syntactic
+// form, incl. the a ?: b form and literal-pattern matches).
+func c10ParsedTree(c *runner.Ctx, idx uint64) {
+	g := &c11Gen{r: c.R}
+	t := g.gen(1 + c.R.Intn(7))
+	src := term.Print(t, term.PrintOpts{})
+	c.Begin(src)
+	tree, po := safeParse(src)
+	c.Eval(1)
+	if po.Failed() || tree == nil {
+		return
+	}
+	c.Count("parsed_trees_walked", 1)
+	c.Distinct("parsed|" + src)
+	c10CheckTree(c, tree.Node, src)
+}
+
+type stringPatcher struct {
+	from, to string
+	n        int
+}
+
+func (p *stringPatcher) Enter(*ast.Node) {}
+func (p *stringPatcher) Exit(n *ast.Node) {
+	if s, ok := (*n).(*ast.StringNode); ok && s.Value == p.from {
+		ast.Patch(n, &ast.StringNode{Value: p.to})
+		p.n++
+	}
+}
+
+// substituteStr returns a copy of t with string literal from replaced by to.
+func substituteStr(t *term.Term, from, to string) (*term.Term, int) {
+	if t == nil {
+		return nil, 0
+	}
+	if t.K == term.KStr && t.Str == from {
+		return term.Str(to), 1
+	}
+	cp := *t
+	cp.Sub = make([]*term.Term, len(t.Sub))
+	n := 0
+	if t.K == term.KMap {
+		// map keys are string nodes of the parsed tree as well
+		cp.Keys = append([]string{}, t.Keys...)
+		for i, k := range cp.Keys {
+			if k == from {
+				cp.Keys[i] = to
+				n++
+			}
+		}
+	}
+	for i, s := range t.Sub {
+		var k int
+		cp.Sub[i], k = substituteStr(s, from, to)
+		n += k
+	}
+	return &cp, n
+}
+
+// sharedByElvis reports whether n is both Cond and Exp1 of a conditional.
+func sharedByElvis(root ast.Node, n ast.Node) bool {
+	found := false
+	var rec func(x ast.Node)
+	rec = func(x ast.Node) {
+		if x == nil || found {
+			return
+		}
+		if c, ok := x.(*ast.ConditionalNode); ok && c.Cond == c.Exp1 && contains1(c.Cond, n) {
+			found = true
+			return
+		}
+		for _, s := range childSlots(x) {
+			rec(*s)
+		}
+	}
+	rec(root)
+	return found
+}
+
+// contains1 reports whether n is x or a descendant of x.
+func contains1(x, n ast.Node) bool {
+	if x == n {
+		return true
+	}
+	for _, s := range childSlots(x) {
+		if contains1(*s, n) {
+			return true
+		}
+	}
+	return false
 }
